@@ -20,6 +20,8 @@ shielded objects exist, and the listener the user registered has not been garbag
 * `blocked_after`           after close()/any report — also one whose handler raises or re-enters —
                             every protected member raises BlockedStateError, whatever happens in
                             between and afterwards
+* `blocked_after_device_dropped` … also through interface objects obtained earlier, after the user
+                            dropped the device object itself (each object has its own flag)
 * `callback_sees_blocked`   "after any report" includes the notification itself: every call made
                             from inside the DeviceListener callback already saw BlockedStateError,
                             and a close() from inside it got the cached set
@@ -115,12 +117,35 @@ theorem blocked_after_raising_handler (cfg : Cfg) (wf : WF cfg) (pre post : List
     apiBlocked cfg (after cfg (pre ++ .report i k ⟨inner, true⟩ :: post)) m = true :=
   blocked_after cfg wf pre post _ rfl m hm hx
 
-/-- as the user sees it: the API event answers `blocked` -/
+/-- as the user sees it: the API event answers `blocked` (for a member of an object the user
+    still holds: any interface object, or the device object unless it was dropped) -/
 theorem blocked_after_step (cfg : Cfg) (wf : WF cfg) (pre post : List Ev) (e : Ev)
     (he : e.isClosing = true) (i : Nat) (m : Row) (hi : cfg.members[i]? = some m)
-    (hm : rowProtected cfg.nObjs cfg.members m = true) (hx : m.guard ≠ .closeExempt) :
+    (hm : rowProtected cfg.nObjs cfg.members m = true) (hx : m.guard ≠ .closeExempt)
+    (hheld : (after cfg (pre ++ e :: post)).deviceHeld = true ∨ m.obj ≠ 0) :
     (step cfg (after cfg (pre ++ e :: post)) (.api i)).2 = .blocked := by
-  simp only [step, apiOut, hi, blocked_after cfg wf pre post e he m hm hx, if_true]
+  have hgone : (!(after cfg (pre ++ e :: post)).deviceHeld && m.obj == 0) = false := by
+    rcases hheld with h | h
+    · simp [h]
+    · simp [h]
+  simp only [step, hi, hgone, Bool.false_eq_true, if_false, apiOut,
+    blocked_after cfg wf pre post e he m hm hx, if_true]
+
+/-- **C09, blocked for what the user still holds.**  The user took references to interface
+    objects before (`rc = atv.remote_control`, …); the device is closed or reported lost; the
+    user then drops the device object itself (it may be garbage-collected), at any point, with
+    anything else happening before and after.  Every call through a retained interface object
+    still raises BlockedStateError: each object answers from its own flag. -/
+theorem blocked_after_device_dropped (cfg : Cfg) (wf : WF cfg) (pre mid post : List Ev) (e : Ev)
+    (he : e.isClosing = true) (i : Nat) (m : Row) (hi : cfg.members[i]? = some m)
+    (hm : rowProtected cfg.nObjs cfg.members m = true) (hx : m.guard ≠ .closeExempt)
+    (hobj : m.obj ≠ 0) :
+    (step cfg (after cfg (pre ++ e :: (mid ++ .dropDevice :: post))) (.api i)).2 = .blocked :=
+  blocked_after_step cfg wf pre (mid ++ .dropDevice :: post) e he i m hi hm hx (Or.inr hobj)
+
+/-- dropping the device object changes nothing but who holds what -/
+theorem drop_changes_nothing (cfg : Cfg) (s : St) :
+    (step cfg s .dropDevice).1 = { s with deviceHeld := false } := rfl
 
 /-- **C09, blocked inside the notification.**  "After any protocol reports" includes the
     callback that delivers the report: in every history, every public-API call the user's
@@ -350,6 +375,14 @@ example :
 example :
     let cfg := facadeCfg .alive [⟨[(.closed, ret)], 1⟩, ⟨[(.lost 7, ret)], 0⟩]
     (after cfg [.userClose, .report 1 (.lost 3) ret]).notified = [⟨0, .closed⟩] := by
+  decide
+
+/-- references taken before, loss reported, device object dropped: the retained RemoteControl
+    still answers `blocked`; a member of the dropped device object cannot be called at all -/
+example :
+    let cfg := facadeCfg .alive [⟨[], 1⟩]
+    outputs cfg (init cfg) [.api 28, .report 0 (.lost 1) ret, .dropDevice, .api 28, .api 10]
+      = [.pass, .none, .none, .blocked, .gone] := by
   decide
 
 /-- `BenignProtos` is met by protocols whose close-time handlers do not raise -/
